@@ -29,9 +29,17 @@ structure Issue where
   ctx : List (Str × Val) := []         -- context fields (ec_row, ec_column, …) and other keyword fields
 deriving Repr, Inhabited
 
-/-- `_add_context_to_errors`: `error_object[k] = v` for every context entry (later wins). -/
+/-- `d[k] = v` on an insertion-ordered dict: an existing key keeps its place, a new key goes to the end -/
+def setKey (d : List (Str × Val)) (k : Str) (v : Val) : List (Str × Val) :=
+  if d.any (·.1 == k) then d.map (fun kv => if kv.1 == k then (k, v) else kv) else d ++ [(k, v)]
+
+/-- `d.get(k)` -/
+def getKey (d : List (Str × Val)) (k : Str) : Option Val := (d.find? (·.1 == k)).map (·.2)
+
+/-- `_add_context_to_errors`: `error_object[k] = v` for every context entry, outermost first (so for a context
+type that is on the stack twice the innermost value is the one that stays). -/
 def addContext (i : Issue) (ctx : List (Str × Val)) : Issue :=
-  { i with ctx := ctx.foldl (fun acc (k, v) => (k, v) :: acc.filter (·.1 != k)) i.ctx }
+  { i with ctx := ctx.foldl (fun acc kv => setKey acc kv.1 kv.2) i.ctx }
 
 /-- `_update_error_with_char_pos` (after fix 10acb36: suffix added only when `char_index` is new).
 `hasString` = the issue carries a HED_STRING context. -/
@@ -150,5 +158,146 @@ where allJson : List Val → Bool
   | x :: xs => x.isJson && allJson xs
 
 def exportIssue (i : Issue) : Issue := { i with ctx := i.ctx.map fun (k, v) => (k, v.export) }
+
+/-! ### the context stack of `ErrorHandler`  (`push_error_context/pop_error_context/reset_error_context/
+format_error_with_context`) -/
+
+/-- `self.error_context`: `(context_type, context)` pairs, outermost first (`list.append`) -/
+abbrev Stack := List (Str × Val)
+
+/-- `ErrorContext.HED_STRING`, `ErrorContext.FILE_NAME` -/
+def hedStringKey : Str := ['e','c','_','H','e','d','S','t','r','i','n','g']
+def fileKey : Str := ['e','c','_','f','i','l','e','n','a','m','e']
+
+/-- what `push_error_context` stores for `context is None`: `0` for the int-sorted context types, `""` otherwise -/
+def defaultFor (intKeys : List Str) (k : Str) : Val := if intKeys.contains k then .num 0 else .str []
+
+/-- `push_error_context(context_type, context)`; `none` is Python's `None`.  Every other value — the integer `0`
+and the empty string included — is stored as it is (the test is `context is None`, not `not context`). -/
+def push (intKeys : List Str) (st : Stack) (k : Str) (v : Option Val) : Stack :=
+  st ++ [(k, match v with | some x => x | none => defaultFor intKeys k)]
+
+/-- `pop_error_context`: `list.pop(-1)`; `none` = IndexError on an empty stack -/
+def pop (st : Stack) : Option Stack := if st.isEmpty then none else some st.dropLast
+
+/-- does the issue dictionary hold a HED_STRING entry (`_get_tag_span_to_error_object`) -/
+def hasStringCtx (i : Issue) : Bool := i.ctx.any (·.1 == hedStringKey)
+
+/-- `format_error_with_context` on the freshly built error object `i`: dropped when warnings are off and
+`severity >= WARNING`; else the whole stack is written into it and the character position added -/
+def formatCtx (w : Bool) (st : Stack) (i : Issue) : List Issue :=
+  if !w && decide (10 ≤ i.severity) then [] else
+  let j := addContext i st
+  [updateCharPos (hasStringCtx j) j]
+
+/-- one call on an `ErrorHandler` -/
+inductive Op where
+  | push (k : Str) (v : Option Val)
+  | pop
+  | reset
+  | format (i : Issue)
+deriving Inhabited
+
+/-- the handler's stack and every issue it has formatted so far -/
+structure HState where
+  stack : Stack := []
+  out : List Issue := []
+deriving Inhabited
+
+def step (intKeys : List Str) (w : Bool) (s : HState) : Op → Option HState
+  | .push k v => some { s with stack := push intKeys s.stack k v }
+  | .pop => (pop s.stack).map fun st => { s with stack := st }
+  | .reset => some { s with stack := [] }
+  | .format i => some { s with out := s.out ++ formatCtx w s.stack i }
+
+/-- a history of calls; `none` = an exception (pop on an empty stack) -/
+def run (intKeys : List Str) (w : Bool) : HState → List Op → Option HState
+  | s, [] => some s
+  | s, o :: os =>
+    match step intKeys w s o with
+    | none => none
+    | some s' => run intKeys w s' os
+
+/-! ### printable output  (`get_printable_issue_string/_build_error_context_dict/_add_single_error_to_dict/
+_get_context_from_issue/_error_dict_to_string`) -/
+
+/-- `str(value)` of a context value (`get_original_hed_string()` for the HED_STRING object) -/
+def Val.text : Val → Str
+  | .num n => (toString n).toList
+  | .str s => s
+  | .ref t => t
+  | .list _ => []          -- no context value is a list
+
+abbrev CKey := Str × Str
+
+/-- `key.startswith("ec_")` -/
+def isEcKey (k : Str) : Bool := k.take 3 == ['e','c','_']
+
+/-- `_get_context_from_issue`: the `ec_` entries of the issue in dictionary order, values as text -/
+def contextPath (skipFile : Bool) (i : Issue) : List CKey :=
+  i.ctx.filterMap fun kv =>
+    if skipFile && kv.1 == fileKey then none
+    else if isEcKey kv.1 then some (kv.1, kv.2.text) else none
+
+/-- the nested dictionary of `_add_single_error_to_dict`: `"children"` (the issues of this level) and one entry per
+context tuple, in insertion order -/
+inductive PTree where
+  | node (children : List Issue) (subs : List (CKey × PTree))
+deriving Inhabited
+
+/-- a fresh chain of levels ending in the issue -/
+def chain : List CKey → Issue → PTree
+  | [], i => .node [i] []
+  | k :: ks, i => .node [] [(k, chain ks i)]
+
+mutual
+/-- `_add_single_error_to_dict(items, root, issue)` -/
+def PTree.insert (i : Issue) : List CKey → PTree → PTree
+  | [], .node ch subs => .node (ch ++ [i]) subs
+  | k :: ks, .node ch subs => .node ch (insertSubs i k ks subs)
+/-- `current_dict.get(item, {"children": []})` then descend -/
+def insertSubs (i : Issue) (k : CKey) (ks : List CKey) : List (CKey × PTree) → List (CKey × PTree)
+  | [] => [(k, chain ks i)]
+  | (k', t) :: rest => if k' == k then (k', t.insert i ks) :: rest else (k', t) :: insertSubs i k ks rest
+end
+
+/-- `_build_error_context_dict` (`None` for no issues prints like the empty root) -/
+def buildTree (skipFile : Bool) (l : List Issue) : PTree :=
+  l.foldl (fun t i => t.insert i (contextPath skipFile i)) (.node [] [])
+
+/-- a printed line: a context header or an issue, with its indentation level -/
+inductive Line where
+  | ctx (level : Nat) (k : CKey)
+  | issue (level : Nat) (i : Issue)
+deriving Inhabited
+
+mutual
+/-- `_error_dict_to_string`: the issues of the level first, then every context entry in insertion order -/
+def PTree.lines (level : Nat) : PTree → List Line
+  | .node ch subs => ch.map (Line.issue level) ++ linesSubs level subs
+def linesSubs (level : Nat) : List (CKey × PTree) → List Line
+  | [] => []
+  | (k, t) :: rest => Line.ctx level k :: (t.lines (level + 1) ++ linesSubs level rest)
+end
+
+mutual
+/-- the issues in printed order -/
+def PTree.flat : PTree → List Issue
+  | .node ch subs => ch ++ flatSubs subs
+def flatSubs : List (CKey × PTree) → List Issue
+  | [] => []
+  | (_, t) :: rest => t.flat ++ flatSubs rest
+end
+
+def Line.issue? : Line → Option Issue
+  | .ctx _ _ => none
+  | .issue _ i => some i
+
+/-- `get_printable_issue_string(issues, severity=…)`: the printed lines -/
+def printLines (skipFile : Bool) (severity : Option Nat) (l : List Issue) : List Line :=
+  let l' := match severity with
+    | some s => l.filter fun i => decide (i.severity ≤ s)      -- `filter_issues_by_severity`
+    | none => l
+  (buildTree skipFile l').lines 0
 
 end HedVerif.Issue
